@@ -125,6 +125,32 @@ theorem cfun_tuple_slice : LibSrc.cfun_tuple_slice = "{ JanetView view = janet_g
 theorem cfun_tuple_join : LibSrc.cfun_tuple_join = "{ janet_arity(argc, 0, -1); int32_t total_len = 0; for (int32_t i = 0; i < argc; i++) { int32_t len = 0; const Janet *vals = NULL; if (!janet_indexed_view(argv[i], &vals, &len)) { janet_panicf(\"expected indexed type for argument %d, got %v\", i, argv[i]); } if (INT32_MAX - total_len < len) { janet_panic(\"tuple too large\"); } total_len += len; } Janet *tup = janet_tuple_begin(total_len); Janet *tup_cursor = tup; for (int32_t i = 0; i < argc; i++) { int32_t len = 0; const Janet *vals = NULL; janet_indexed_view(argv[i], &vals, &len); safe_memcpy(tup_cursor, vals, len * sizeof(Janet)); tup_cursor += len; } return janet_wrap_tuple(janet_tuple_end(tup)); }" := rfl
 /-- src/core/corelib.c janet_core_range -/
 theorem janet_core_range : LibSrc.janet_core_range = "{ janet_arity(argc, 1, 3); double start = 0, stop = 0, step = 1, count = 0; if (argc == 3) { start = janet_getnumber(argv, 0); stop = janet_getnumber(argv, 1); step = janet_getnumber(argv, 2); count = (step > 0) ? (stop - start) / step : ((step < 0) ? (stop - start) / step : 0); } else if (argc == 2) { start = janet_getnumber(argv, 0); stop = janet_getnumber(argv, 1); count = stop - start; } else { stop = janet_getnumber(argv, 0); count = stop; } count = (count > 0) ? count : 0; int32_t int_count; janet_assert(count >= 0, \"bad range code\"); if (count > (double) INT32_MAX) { janet_panicf(\"range is too large, %f elements\", count); } else { int_count = (int32_t) ceil(count); } if (step > 0.0) { while (int_count < INT32_MAX && start + int_count * step < stop) int_count++; } else if (step < 0.0) { while (int_count < INT32_MAX && start + int_count * step > stop) int_count++; } JanetArray *array = janet_array(int_count); for (int32_t i = 0; i < int_count; i++) { array->data[i] = janet_wrap_number((double) start + (double) i * step); } array->count = int_count; return janet_wrap_array(array); }" := rfl
+/-- src/core/buffer.c should_reverse_bytes -/
+theorem should_reverse_bytes : LibSrc.should_reverse_bytes = "{ JanetKeyword order_kw = janet_getkeyword(argv, argc); if (!janet_cstrcmp(order_kw, \"le\")) { #if JANET_BIG_ENDIAN return 1; #endif } else if (!janet_cstrcmp(order_kw, \"be\")) { #if JANET_LITTLE_ENDIAN return 1; #endif } else if (!janet_cstrcmp(order_kw, \"native\")) { return 0; } else { janet_panicf(\"expected endianness :le, :be or :native, got %v\", argv[1]); } return 0; }" := rfl
+/-- src/core/buffer.c reverse_u32 -/
+theorem reverse_u32 : LibSrc.reverse_u32 = "{ uint8_t temp; temp = bytes[3]; bytes[3] = bytes[0]; bytes[0] = temp; temp = bytes[2]; bytes[2] = bytes[1]; bytes[1] = temp; }" := rfl
+/-- src/core/buffer.c reverse_u64 -/
+theorem reverse_u64 : LibSrc.reverse_u64 = "{ uint8_t temp; temp = bytes[7]; bytes[7] = bytes[0]; bytes[0] = temp; temp = bytes[6]; bytes[6] = bytes[1]; bytes[1] = temp; temp = bytes[5]; bytes[5] = bytes[2]; bytes[2] = temp; temp = bytes[4]; bytes[4] = bytes[3]; bytes[3] = temp; }" := rfl
+/-- src/core/buffer.c cfun_buffer_push_uint16 -/
+theorem cfun_buffer_push_uint16 : LibSrc.cfun_buffer_push_uint16 = "{ janet_fixarity(argc, 3); JanetBuffer *buffer = janet_getbuffer(argv, 0); int reverse = should_reverse_bytes(argv, 1); uint16_t data = janet_getuinteger16(argv, 2); uint8_t bytes[sizeof(data)]; memcpy(bytes, &data, sizeof(bytes)); if (reverse) { uint8_t temp = bytes[1]; bytes[1] = bytes[0]; bytes[0] = temp; } janet_buffer_push_bytes(buffer, bytes, sizeof(bytes)); return argv[0]; }" := rfl
+/-- src/core/buffer.c cfun_buffer_push_uint32 -/
+theorem cfun_buffer_push_uint32 : LibSrc.cfun_buffer_push_uint32 = "{ janet_fixarity(argc, 3); JanetBuffer *buffer = janet_getbuffer(argv, 0); int reverse = should_reverse_bytes(argv, 1); uint32_t data = janet_getuinteger(argv, 2); uint8_t bytes[sizeof(data)]; memcpy(bytes, &data, sizeof(bytes)); if (reverse) reverse_u32(bytes); janet_buffer_push_bytes(buffer, bytes, sizeof(bytes)); return argv[0]; }" := rfl
+/-- src/core/buffer.c cfun_buffer_push_uint64 -/
+theorem cfun_buffer_push_uint64 : LibSrc.cfun_buffer_push_uint64 = "{ janet_fixarity(argc, 3); JanetBuffer *buffer = janet_getbuffer(argv, 0); int reverse = should_reverse_bytes(argv, 1); uint64_t data = janet_getuinteger64(argv, 2); uint8_t bytes[sizeof(data)]; memcpy(bytes, &data, sizeof(bytes)); if (reverse) reverse_u64(bytes); janet_buffer_push_bytes(buffer, bytes, sizeof(bytes)); return argv[0]; }" := rfl
+/-- src/core/buffer.c cfun_buffer_new_filled -/
+theorem cfun_buffer_new_filled : LibSrc.cfun_buffer_new_filled = "{ janet_arity(argc, 1, 2); int32_t count = janet_getinteger(argv, 0); if (count < 0) count = 0; int32_t byte = 0; if (argc == 2) { byte = janet_getinteger(argv, 1) & 0xFF; } JanetBuffer *buffer = janet_buffer(count); if (buffer->data && count > 0) memset(buffer->data, byte, count); buffer->count = count; return janet_wrap_buffer(buffer); }" := rfl
+/-- src/core/array.c janet_array_pop -/
+theorem janet_array_pop : LibSrc.janet_array_pop = "{ if (array->count) { return array->data[--array->count]; } else { return janet_wrap_nil(); } }" := rfl
+/-- src/core/array.c janet_array_peek -/
+theorem janet_array_peek : LibSrc.janet_array_peek = "{ if (array->count) { return array->data[array->count - 1]; } else { return janet_wrap_nil(); } }" := rfl
+/-- src/core/array.c cfun_array_new_filled -/
+theorem cfun_array_new_filled : LibSrc.cfun_array_new_filled = "{ janet_arity(argc, 1, 2); int32_t count = janet_getnat(argv, 0); Janet x = (argc == 2) ? argv[1] : janet_wrap_nil(); JanetArray *array = janet_array(count); for (int32_t i = 0; i < count; i++) { array->data[i] = x; } array->count = count; return janet_wrap_array(array); }" := rfl
+/-- src/core/array.c cfun_array_pop -/
+theorem cfun_array_pop : LibSrc.cfun_array_pop = "{ janet_fixarity(argc, 1); JanetArray *array = janet_getarray(argv, 0); return janet_array_pop(array); }" := rfl
+/-- src/core/array.c cfun_array_peek -/
+theorem cfun_array_peek : LibSrc.cfun_array_peek = "{ janet_fixarity(argc, 1); JanetArray *array = janet_getarray(argv, 0); return janet_array_peek(array); }" := rfl
+/-- src/core/array.c cfun_array_push -/
+theorem cfun_array_push : LibSrc.cfun_array_push = "{ janet_arity(argc, 1, -1); JanetArray *array = janet_getarray(argv, 0); if (INT32_MAX - argc + 1 <= array->count) { janet_panic(\"array overflow\"); } int32_t newcount = array->count - 1 + argc; janet_array_ensure(array, newcount, 2); if (argc > 1) memcpy(array->data + array->count, argv + 1, (size_t)(argc - 1) * sizeof(Janet)); array->count = newcount; return argv[0]; }" := rfl
 /-- boot.janet each-template -/
 theorem boot_each_template : LibSrc.boot_each_template = "(defn- each-template [binding inx kind body] (with-syms [k] (def ds (if (idempotent? inx) inx (gensym))) ~(do ,(unless (= ds inx) ~(def ,ds ,inx)) (var ,k (,next ,ds nil)) (while (,not= nil ,k) (def ,binding ,(case kind :each ~(,in ,ds ,k) :keys k :pairs ~[,k (,in ,ds ,k)])) ,;body (set ,k (,next ,ds ,k))))))" := rfl
 /-- boot.janet median-of-three -/
